@@ -196,7 +196,7 @@ def term(n: ast.AST) -> str:
 
 
 _SAFE_ITER_CALLS = ('zip', 'enumerate', 'range', 'reversed', 'sorted')
-_ITER_CONSUMERS = ('sum', 'min', 'max', 'list', 'set', 'sorted', 'any', 'all', 'tuple', 'frozenset', 'len', 'iter',
+_ITER_CONSUMERS = ('sum', 'math.fsum', 'fsum', 'min', 'max', 'list', 'set', 'sorted', 'any', 'all', 'tuple', 'frozenset', 'len', 'iter',
                    'enumerate', 'zip', 'reversed', 'dict.fromkeys')
 
 
@@ -222,6 +222,9 @@ def iter_canon(n: ast.AST, consumed_at_once: bool = False) -> ast.AST:
                 and n.elt.id == n.generators[0].target.id:
             n = n.generators[0].iter
             continue
+        if consumed_at_once and isinstance(n, ast.ListComp):
+            # sum([e for x in S]) is sum(e for x in S): the list is used up inside the consuming call
+            return ast.copy_location(ast.GeneratorExp(elt=n.elt, generators=n.generators), n)
         return n
 
 
@@ -261,9 +264,12 @@ def cstr(n: ast.AST) -> str:
             # dict((k, v) for ...) is the dict comprehension {k: v for ...}
             g = n.args[0]
             return cstr(ast.DictComp(key=g.elt.elts[0], value=g.elt.elts[1], generators=g.generators))
+        def _plain_load(v):
+            return isinstance(v, (ast.Constant, ast.Name)) or (isinstance(v, ast.Attribute) and _plain_load(v.value))
         if f == 'dict.fromkeys' and len(n.args) in (1, 2) and not n.keywords and \
-                (len(n.args) == 1 or isinstance(n.args[1], ast.Constant)):
-            # dict.fromkeys(S, c) is {k: c for k in S} (one shared value: only for an immutable constant)
+                (len(n.args) == 1 or _plain_load(n.args[1])):
+            # dict.fromkeys(S, c) is {k: c for k in S}: one shared value - a constant, or a plain load, which the
+            # comprehension shares between the keys just the same (not a display or a call, which it would repeat)
             k = ast.Name(id='_fk', ctx=ast.Load())
             return cstr(ast.DictComp(key=k, value=n.args[1] if len(n.args) == 2 else ast.Constant(value=None),
                                      generators=[ast.comprehension(target=ast.Name(id='_fk', ctx=ast.Store()), iter=n.args[0],
